@@ -1,8 +1,9 @@
 (** C02 - whole-cell shifts are lossless; fractional shifts reproduce polynomials.
     Only statements closed by [exact]; see Proofs/ for the proofs and DESIGN.md 5/C02. *)
-From Coq Require Import List ZArith QArith Qcanon Bool.
+From Coq Require Import List ZArith QArith Qcanon Bool Rdefinitions Qreals.
+From Flocq Require Core.
 From Inovesa Require Import Base.FieldKit Base.Float32 Gen.Gen_Coeffs Model.Kick
-  Proofs.WeightsP Proofs.KickP Proofs.KickGridP Model.Rotation Proofs.RotationP.
+  Proofs.WeightsP Proofs.KickP Proofs.KickGridP Model.Rotation Proofs.RotationP Proofs.Float32P.
 Import ListNotations.
 Local Open Scope Z_scope.
 
@@ -57,6 +58,15 @@ Theorem C02_rot_poly_reproduction :
     (fpow (X + xf) k * fpow (Y + yf) l)%F.
 Proof. exact rot_poly_reproduction. Qed.
 Print Assumptions C02_rot_poly_reproduction.
+
+(** the rounding function the kick and rotation models use where the C++ rounds to float before a
+    discontinuous decision is IEEE-754 binary32 round-to-nearest-even (Flocq's FLT format) *)
+Theorem C02_rnd32_is_binary32_RNE :
+  forall q : Qc, Q2R (this (rnd32 q)) =
+    Generic_fmt.round Zaux.radix2 (FLT.FLT_exp (-149) 24)
+      (Generic_fmt.Znearest (fun x => negb (Z.even x))) (Q2R (this q)).
+Proof. exact Float32P.rnd32_correct. Qed.
+Print Assumptions C02_rnd32_is_binary32_RNE.
 
 (** non-vacuity: a concrete shifted row *)
 Example C02_shift_example :
